@@ -45,8 +45,11 @@ func (f *Makunbound) Call(s *slip.Scope, args slip.List, depth int) slip.Object 
 		slip.TypePanic(s, depth, "symbol", args[0], "symbol")
 	}
 	if !s.Remove(sym) {
-		if !slip.CurrentPackage.Locked {
-			slip.CurrentPackage.Remove(string(sym))
+		// A variable inherited from a used package belongs to that package
+		// and stays visible as long as the package is used.
+		p := slip.CurrentPackage
+		if vv := p.GetVarVal(string(sym)); !p.Locked && (vv == nil || vv.Pkg == nil || vv.Pkg == p) {
+			p.Remove(string(sym))
 		}
 	}
 	return sym
